@@ -92,6 +92,20 @@ def project_events(ev_text, impl):
     return out
 
 
+def project_pair(i, m):
+    """implementation: res filename [entries] [events] text ; model: res [entries] [events] -> comparable projections"""
+    it = i.split(" ", 2); mt = m.split(" ", 1)
+    if len(it) < 3 or not it[2].startswith("["):
+        return i[:200], m[:200]
+    body = it[2].rsplit(" ", 1)[0]
+    k = body.index("] [") + 1 if "] [" in body else (body.index("] ") + 1)
+    ients, ievs = body[:k], body[k + 1:]
+    k2 = mt[1].index("] [") + 1 if "] [" in mt[1] else (mt[1].index("] ") + 1)
+    ments, mevs = mt[1][:k2], mt[1][k2 + 1:]
+    return (it[0] + " " + ients + " " + " ".join(project_events(ievs, True)),
+            mt[0] + " " + ments + " " + " ".join(project_events(mevs, False)))
+
+
 def scenarios(chk):
     rng = chk.rng
     names = [b"x_1.0.orig.tar.gz", b"x_1.0-1.debian.tar.xz", b"x_1.0-1_amd64.deb", b"file-with-dash", b"z"]
@@ -140,17 +154,8 @@ def run(chk):
     model = chk.run_model(mcases)
     pi, pm = [], []
     for i, m in zip(impl, model):
-        it = i.split(" ", 2); mt = m.split(" ", 1)
-        if len(it) < 3 or not it[2].startswith("["):
-            pi.append(i[:200]); pm.append(m[:200]); continue
-        # implementation: res filename [entries] [events] text ; model: res [entries] [events]
-        body = it[2].rsplit(" ", 1)[0]
-        k = body.index("] [") + 1 if "] [" in body else (body.index("] ") + 1)
-        ients, ievs = body[:k], body[k + 1:]
-        k2 = mt[1].index("] [") + 1 if "] [" in mt[1] else (mt[1].index("] ") + 1)
-        ments, mevs = mt[1][:k2], mt[1][k2 + 1:]
-        pi.append(it[0] + " " + ients + " " + " ".join(project_events(ievs, True)))
-        pm.append(mt[0] + " " + ments + " " + " ".join(project_events(mevs, False)))
+        a, b = project_pair(i, m)
+        pi.append(a); pm.append(b)
     chk.compare("real-file-system-vs-model", mcases, pi, pm, nontrivial=lambda c, r: True, kernel=False)
     for k in range(0, len(mcases), max(1, len(mcases) // 40)):
         chk.kernel_pool.append((mcases[k], model[k]))
@@ -216,6 +221,70 @@ def run(chk):
                 why = "the removal failed but the control file is gone"
         if why:
             chk.violate({"kind": "property", "case": lib.show_case(c), "impl": i[:1200], "explanation": why})
+    # ---- histories: a second operation through the SAME handle (all files present, no faults)
+    names = [b"x_1.0.orig.tar.gz", b"x_1.0-1.debian.tar.xz", b"x_1.0-1_amd64.deb"]
+    hist = []
+    for kind, ctl in (("dsc", b"x_1.0-1.dsc"), ("changes", b"x_1.0-1_amd64.changes")):
+        for op in ("copy+remove", "move+remove", "copy+move", "move+move", "copy+copy", "move+copy"):
+            for n in range(0, 4):
+                hist.append((kind, op, ctl, "ok", [(names[k], "ok", b"content %d " % k * (k + 1)) for k in range(n)]))
+    hic = []
+    for kind, op, ctl, ctlstate, files in hist:
+        args = [kind.encode(), op.encode(), ctl, b"ok", len(files)]
+        for n, st, c in files:
+            args += [n, st.encode(), c]
+        hic.append(("upload", args))
+    himpl = chk.run_impl(hic)
+    hmc = []
+    for (kind, op, ctl, ctlstate, files), i in zip(hist, himpl):
+        text = bytes.fromhex(i.rsplit(" ", 1)[1][1:]) if " " in i else b""
+        hmc.append(("upload", [op.encode(), ctl, b"-", len(files)] + [n for n, _, _ in files] + model_fs(ctl, "ok", text, files)))
+    hmodel = chk.run_model(hmc)
+    hpi, hpm = [], []
+    for i, m in zip(himpl, hmodel):
+        a, b = project_pair(i, m)
+        hpi.append(a); hpm.append(b)
+    chk.compare("histories-through-one-handle", hmc, hpi, hpm, nontrivial=lambda c, r: True, kernel=False)
+    for (kind, op, ctl, ctlstate, files), c, i in zip(hist, hic, himpl):
+        it = i.split(" ", 2)
+        why = None
+        if len(it) < 3 or it[0] != "ok+ok":
+            why = "two operations through one handle on an intact upload did not both succeed"
+        else:
+            fn = bytes.fromhex(it[1][1:])
+            body = it[2].rsplit(" ", 1)[0]
+            k = body.index("] [") + 1 if "] [" in body else (body.index("] ") + 1)
+            ents = {}
+            for e in body[:k].split("( ")[1:]:
+                a, b = e.split()[:2]
+                ents[bytes.fromhex(a[1:])] = bytes.fromhex(b[1:])
+            o1, o2 = op.split("+")
+            every = [(n, cnt) for n, _, cnt in files] + [(ctl, None)]
+            def holds(d, present):
+                for n, cnt in every:
+                    key = d + b"/" + n
+                    if present and (key not in ents or (cnt is not None and ents[key] != cnt)):
+                        return False
+                    if not present and key in ents:
+                        return False
+                return True
+            # where the files must be in the end
+            s_has = (o1 == "copy")
+            d_has = (o2 == "copy")
+            d2_has = (o2 in ("copy", "move"))
+            if ents.get(b"outside/canary") != b"canary" or ents.get(b"root/rootcanary") != b"canary" or ents.get(b"S/sub") != b"<dirfull>":
+                why = "a file outside the directories involved was touched"
+            elif not holds(b"S", s_has):
+                why = "after %s the originals are %s" % (op, "not intact" if s_has else "still in the source directory")
+            elif not holds(b"D", d_has):
+                why = "after %s the first destination %s" % (op, "lacks files" if d_has else "still holds files: the second operation did not act where the handle points")
+            elif not holds(b"D2", d2_has):
+                why = "after %s the second destination %s" % (op, "lacks files or they differ from the originals" if d2_has else "holds files")
+            elif o2 != "remove" and fn != b"D2/" + ctl:
+                why = "after %s the handle does not point at the second destination" % op
+        if why:
+            chk.violate({"kind": "property", "case": lib.show_case(c), "impl": i[:1500], "explanation": why})
+    chk.extra["history_scenarios"] = len(hist)
     chk.extra["scenarios"] = len(scs)
     chk.trusted.append("the OS file system (ext4/overlay under /var/tmp) and inotify as the observer of the order of appearance")
     chk.assumptions += ["crash points are the model's primitive-call boundaries; failures are injected with real conditions (missing source, source is a directory, destination name occupied by a non-empty directory, non-empty directory to remove)",
